@@ -41,6 +41,19 @@ def parseOp (k : Nat) (x : String) : Option Op :=
     let r ← ofHex result
     let n ← nargs.toNat?
     pure (.audit (mkEvent t ts s typ pt r n) (2 * k + 1))
+  | ["X", ts, ses, typ, pidTok, result, action, how, object, args] => do
+    -- an event spelled out field by field (a real coalesced event)
+    let t ← ts.toInt?
+    let s ← ofHex ses
+    let pt ← ofHex pidTok
+    let r ← ofHex result
+    let a ← ofHex action
+    let h ← ofHex how
+    let o ← ofHex object
+    let as ← (if args == "-" then some [] else (args.splitOn ",").mapM ofHex)
+    let ty := if typ == "l" then EvType.login else if typ == "d" then EvType.credDisp else EvType.other
+    pure (.audit { ts := t, ses := s, typ := ty, pidTok := pt, result := r, action := a, how := h, object := o, args := as }
+            (2 * k + 1))
   | ["S", ref] => (refTime ref k).map .cleanSessions
   | ["R", ref] => (refTime ref k).map .cleanLogins
   | _ => none
